@@ -28,6 +28,10 @@ and every setter that documents it takes the text alone or the pair (text, {pref
 A seed may name a route (+ 'ns' for the pair form) as sixth element: every style rule of sheet A (also inside @media) is then re-written
 through that route with its own text before the history starts. The pool 'forms' has every route x form x selector as an operation
 of the history itself (next to the mapping edits), so a write through any route happens in every reachable namespace state.
+
+Text axis (ns_text_seeds): the namespace history can also be in the parsed text itself - a prefix or the default namespace declared twice
+(the parser then re-targets the earlier rule), @namespace rules with a comment at every position and the URI as string or url().
+Such seed sheets are judged like every other state: the expected declarations and pairs come from the construction of the text.
 """
 import logging
 import re
@@ -74,6 +78,58 @@ SEEDS = [
     ('/*c*/ @namespace p "urn:a"; @namespace Q "urn:b"; p|e Q|f { left: 0 } *|e, |e { top: 0 }', {'p': 'urn:a', 'Q': 'urn:b'}, [['p|e Q|f'], ['*|e', '|e']], '', True),
     ('@namespace p "urn:a"; p|e { left: 0 }', {'p': 'urn:a'}, [['p|e']], '@namespace r "urn:a";', False),
 ]
+
+# ---- seed sheets whose TEXT carries the namespace history: @namespace rules with a comment at every position, URI as string or url(),
+# and prefixes (or the default namespace) declared again later in the same text.  CSS: the later declaration of a prefix replaces the
+# earlier one; the expected declarations and pairs come from this construction.
+NS_COMMENT_POSITIONS = (0, 1, 2)    # 0: after the at-keyword, 1: after the prefix (prefixed rules only), 2: after the URI, before ';'
+RETIRED_URI = 'urn:c'               # the URI a re-declared prefix loses again within the seed text (never in the operation pool)
+# (declarations in text order, selector keys of the one style rule that follows); the FIRST declaration carries the comment / URI-form axes
+NS_TEXT_PATTERNS = [
+    ('prefix declared twice', [('p', RETIRED_URI), ('p', 'urn:a')], ['p|e', 'e[p|a]']),
+    ('default namespace declared twice', [('', RETIRED_URI), ('', 'urn:a')], ['e', '*|e', '|e']),
+    ('prefix declared twice around another declaration', [('Q', RETIRED_URI), ('p', 'urn:b'), ('Q', 'urn:a')], ['Q|f', 'p|e']),
+    ('prefix declared twice with one URI', [('p', 'urn:a'), ('p', 'urn:a')], ['p|e']),
+    ('every prefix declared once', [('p', 'urn:a'), ('', 'urn:b')], ['p|e', 'e']),
+]
+
+
+def ns_rule_text(prefix, uri, mask=(), form='string'):
+    """the text of one @namespace rule with a comment at every position in `mask`"""
+    parts = ['@namespace']
+    if 0 in mask:
+        parts.append('/*0*/')
+    if prefix:
+        parts.append(prefix)
+        if 1 in mask:
+            parts.append('/*1*/')
+    parts.append(f'"{uri}"' if form == 'string' else f'url({uri})')
+    if 2 in mask:
+        parts.append('/*2*/')
+    return ' '.join(parts) + ';'
+
+
+def _masks(prefix):
+    pos = [x for x in NS_COMMENT_POSITIONS if prefix or x != 1]
+    return [tuple(x for j, x in enumerate(pos) if bits >> j & 1) for bits in range(2 ** len(pos))]
+
+
+def ns_text_seeds(full_masks_only=False):
+    """every pattern x every subset of comment positions in its first @namespace rule x (later rules bare / commented everywhere) x URI form"""
+    out = []
+    for _, decls, keys in NS_TEXT_PATTERNS:
+        decl = {}
+        for px, uri in decls:
+            decl[px] = uri
+        first, rest = decls[0], decls[1:]
+        masks = _masks(first[0])
+        for mask in (masks[-1:] if full_masks_only else masks):
+            for later in ((), NS_COMMENT_POSITIONS):
+                for form in ('string', 'url'):
+                    text = ' '.join([ns_rule_text(first[0], first[1], mask, form)] + [ns_rule_text(px, uri, later) for px, uri in rest])
+                    out.append((text + ' ' + ', '.join(keys) + ' { left: 0 }', dict(decl), [list(keys)], '', True))
+    return out
+
 
 # how a selector gets into an attached rule through the DOM (the text route is the seed text itself)
 ROUTES = ['rule.selectorText', 'selectorList.selectorText', 'Selector.selectorText', 'appendSelector', 'selectorList[i]', 'rule.cssText']
@@ -392,6 +448,9 @@ class Model:
         st.seed_problem = None
         if len(rules) != len(sels):
             st.seed_problem = f'seed text {ta!r} has {len(sels)} style rules with declared prefixes, {len(rules)} were read'
+        elif mapping(st.A) != set(decl.items()):
+            st.seed_problem = ('the last declaration of a URI wins',
+                               f'seed text {ta!r} declares {sorted(decl.items())} (a later declaration replaces an earlier one), the mapping is {sorted(mapping(st.A), key=repr)}')
         else:
             for r, keys in zip(rules, sels):
                 st.expected[id(r)] = pairset(expect_pairs(k, decl) for k in keys)
@@ -702,8 +761,8 @@ class Model:
     def step(self, st, op):
         if getattr(st, 'seed_problem', None):
             st.broken = True
-            return 'seed', [{'clause': 'a selector whose prefixes are declared resolves to the declared pairs', 'detail': st.seed_problem, 'key': 'seed', 'model': 'C15.' + self.pool,
-                             'known_id': None}]
+            clause, detail = st.seed_problem if isinstance(st.seed_problem, tuple) else ('a selector whose prefixes are declared resolves to the declared pairs', st.seed_problem)
+            return 'seed', [{'clause': clause, 'detail': detail, 'key': 'seed', 'model': 'C15.' + self.pool, 'known_id': None}]
         pre = self._pre(st)
         note = {}
         outcome = self._guarded(st, op, note)
@@ -1145,6 +1204,22 @@ def forms_bound():
             'a Selector OBJECT as argument (appendSelector / item assignment) is outside the bound')
 
 
+def ns_text_histories(ctx, depth_all, depth_full):
+    """histories that start from sheets whose text re-declares prefixes and carries comments inside its @namespace rules"""
+    from bounded import histories
+    allseeds, fullseeds = ns_text_seeds(), ns_text_seeds(full_masks_only=True)
+    what = (f'{len(NS_TEXT_PATTERNS)} declaration patterns ({"; ".join(n for n, _, _ in NS_TEXT_PATTERNS)}) x every subset of the comment positions '
+            '(after the at-keyword, after the prefix, after the URI) in the first @namespace rule x later rules bare / commented at every position x URI of the first rule as string / url()')
+    bound = (f'; seed texts: {what}; one style rule after the declarations; the URI a prefix loses within the text is {RETIRED_URI!r}; the seed is judged like every state '
+             '(mapping == effective rules == the declarations the text was built with, @namespace rules well-formed, serialisation re-resolves to the pairs of the construction)')
+    histories.explore(ctx, 'bounded.c15', 'core', allseeds, depth_all,
+                      label=f'C15 core pool, sequences <= {depth_all} on {len(allseeds)} seed sheets whose text re-declares prefixes and has comments inside its @namespace rules')
+    ctx.bounded[-1]['bound'] += bound
+    histories.explore(ctx, 'bounded.c15', 'core', fullseeds, depth_full,
+                      label=f'C15 core pool, sequences <= {depth_full} on the {len(fullseeds)} of these seed sheets with a comment at every position of the first @namespace rule')
+    ctx.bounded[-1]['bound'] += bound
+
+
 def sequences(ctx):
     from bounded import histories
     S = SEEDS
@@ -1160,6 +1235,7 @@ def sequences(ctx):
         ctx.bounded[-1]['bound'] += via_bound()
         histories.explore(ctx, 'bounded.c15', 'forms', [S[1], S[2], S[3], S[4]], 2, label=forms_label(2, 4))
         ctx.bounded[-1]['bound'] += forms_bound()
+        ns_text_histories(ctx, 1, 2)
     else:
         histories.explore(ctx, 'bounded.c15', 'full', [S[0], S[1]], 4, label='C15 full pool of namespace operations, sequences <= 4 (empty sheet; one prefix, one namespaced rule)',
                           samples=sample)
@@ -1170,6 +1246,7 @@ def sequences(ctx):
         ctx.bounded[-1]['bound'] += via_bound()
         histories.explore(ctx, 'bounded.c15', 'forms', [S[1], S[2], S[3], S[4]], 3, label=forms_label(3, 4))
         ctx.bounded[-1]['bound'] += forms_bound()
+        ns_text_histories(ctx, 2, 3)
 
 
 def random_walks(ctx):
